@@ -372,3 +372,8 @@ mod tests {
         assert_eq!(expected, actual);
     }
 }
+
+#[cfg(kani)]
+pub(crate) mod verif {
+    include!(concat!(env!("LIBP2P_VERIF"), "/hooks/pnet_lib.rs"));
+}
